@@ -133,6 +133,9 @@ class _TMat(T):
 
 
 TMat = _TMat()
+# storage format of a sparse matrix (uninterpreted: the contracts hold for every format)
+mat_is_csr = z3.Function("mat_is_csr", TMat.sort(), z3.BoolSort())
+mat_is_csc = z3.Function("mat_is_csc", TMat.sort(), z3.BoolSort())
 OMat = TOpt(TMat)
 ROW_OF_BLOCKS = TList(OMat)
 GRID = TList(ROW_OF_BLOCKS)
@@ -405,6 +408,19 @@ class C07Models:
             return self._set_diagonal(ex, recv, args[0], lineno)
         if name in ("toarray", "todense") and not args:
             return _new(ex, False, A.shape, A.elems)
+        if name in ("tocsr", "tocsc") and not args and not kwargs:
+            # scipy: only sparse matrices have the conversion methods; converting a matrix that already has the requested format
+            # (copy=False, the default) returns THE SAME OBJECT, any other format allocates a new matrix with the same entries
+            from .engine import PyRaise
+
+            if not ex.st.decide(A.sparse):
+                raise PyRaise("AttributeError", lineno)
+            fmt = mat_is_csr if name == "tocsr" else mat_is_csc
+            if ex.st.decide(fmt(TMat.embed(ex.st, recv))):
+                return recv
+            r = _new(ex, True, A.shape, A.elems)
+            ex.st.assume(fmt(TMat.embed(ex.st, r)))
+            return r
         raise Unsupported(f"matrix method {name}")
 
     def havoc_obj(self, ex, ref, o, hint):
@@ -470,6 +486,36 @@ def msolve(a, b):
     return mmul(minv(a), b)
 
 
+# ---- linear operators (scipy.sparse.linalg.LinearOperator): an operator denotes a (possibly complex) matrix A;
+# matvec(x) = A x, rmatvec(x) = A^H x (conjugate transpose: `m_adjoint`), `m_real_part` is the entry-wise real part
+madj = z3.Function("m_adjoint", MatrixS, MatrixS)
+mre = z3.Function("m_real_part", MatrixS, MatrixS)
+is_real = z3.Function("m_is_real", MatrixS, z3.BoolSort())
+midentity = z3.Function("m_identity", z3.IntSort(), MatrixS)
+op_dtype = z3.Function("operator_dtype", MatrixS, z3.DeclareSort("NpDtype"))
+
+
+def operator_axioms():
+    """Textbook identities of the conjugate transpose and of distributivity used by the operator contracts (ASSUMED, listed)."""
+    X, Y, Z = (z3.Const(n, MatrixS) for n in ("X!oa", "Y!oa", "Z!oa"))
+    FA = z3.ForAll
+    return [
+        ("adjoint-involution: (X^H)^H = X", FA([X], madj(madj(X)) == X, patterns=[madj(madj(X))])),
+        ("adjoint-of-sum: (X+Y)^H = X^H + Y^H", FA([X, Y], madj(madd(X, Y)) == madd(madj(X), madj(Y)), patterns=[madj(madd(X, Y))])),
+        ("adjoint-of-opposite: (-X)^H = -(X^H)", FA([X], madj(mneg(X)) == mneg(madj(X)), patterns=[madj(mneg(X))])),
+        ("adjoint-of-product: (XY)^H = Y^H X^H", FA([X, Y], madj(mmul(X, Y)) == mmul(madj(Y), madj(X)), patterns=[madj(mmul(X, Y))])),
+        ("adjoint-of-a-real-matrix-is-its-transpose", FA([X], z3.Implies(is_real(X), madj(X) == mtr(X)), patterns=[madj(X)])),
+        ("right-distributivity: (X+Y)Z = XZ + YZ", FA([X, Y, Z], mmul(madd(X, Y), Z) == madd(mmul(X, Z), mmul(Y, Z)), patterns=[mmul(madd(X, Y), Z)])),
+        ("product-with-opposite: (-X)Z = -(XZ)", FA([X, Z], mmul(mneg(X), Z) == mneg(mmul(X, Z)), patterns=[mmul(mneg(X), Z)])),
+        ("associativity: (XY)Z = X(YZ)", FA([X, Y, Z], mmul(mmul(X, Y), Z) == mmul(X, mmul(Y, Z)), patterns=[mmul(mmul(X, Y), Z)])),
+        ("shape-of-adjoint", FA([X], z3.And(nrows(madj(X)) == ncols(X), ncols(madj(X)) == nrows(X)), patterns=[madj(X)])),
+        ("shape-of-transpose", FA([X], z3.And(nrows(mtr(X)) == ncols(X), ncols(mtr(X)) == nrows(X)), patterns=[mtr(X)])),
+        ("shape-of-product", FA([X, Y], z3.And(nrows(mmul(X, Y)) == nrows(X), ncols(mmul(X, Y)) == ncols(Y)), patterns=[mmul(X, Y)])),
+        ("shape-of-sum", FA([X, Y], z3.And(nrows(madd(X, Y)) == nrows(X), ncols(madd(X, Y)) == ncols(X)), patterns=[madd(X, Y)])),
+        ("shape-of-opposite", FA([X], z3.And(nrows(mneg(X)) == nrows(X), ncols(mneg(X)) == ncols(X)), patterns=[mneg(X)])),
+    ]
+
+
 def ring_axioms():
     """Textbook identities of the matrix ring used by the proofs (ASSUMED; every one is listed in the evidence)."""
     X, Y, Z, v = (z3.Const(n, MatrixS) for n in ("X!ra", "Y!ra", "Z!ra", "v!ra"))
@@ -501,6 +547,9 @@ def ring_axioms():
             0 <= diff_row(X, Y), diff_row(X, Y) < nrows(X), mrow(X, diff_row(X, Y)) != mrow(Y, diff_row(X, Y)))), patterns=[ext_q(X, Y)])),
         ("trigger-function (always true)", FA([X, Y], ext_q(X, Y), patterns=[ext_q(X, Y)])),
     ]
+
+
+JACOBIAN_OPERATOR = "gemseo.core.derivatives.jacobian_operator.JacobianOperator"
 
 
 class RingObj(HeapObj):
@@ -539,6 +588,44 @@ class _TRing(T):
 
 
 TRing = _TRing()
+
+
+class _TOp(T):
+    """An abstract linear operator (a scipy LinearOperator whose implementation is not looked at): the value IS the matrix it denotes."""
+
+    name = "LinearOperator"
+
+    def sort(self):
+        return MatrixS
+
+    def embed(self, st, v):
+        if isinstance(v, SV) and v.ty == self:
+            return v.term
+        raise Unsupported(f"cannot embed {v!r} as an abstract linear operator")
+
+    def fresh(self, st, hint):
+        t = st.fresh_const(hint, MatrixS)
+        st.assume(z3.And(nrows(t) >= 0, ncols(t) >= 0))
+        return SV(t, self)
+
+
+TOp = _TOp()
+NPDTYPE = op_dtype.range()
+
+
+class _TDtypeOpaque(T):
+    name = "NpDtype"
+
+    def sort(self):
+        return NPDTYPE
+
+    def embed(self, st, v):
+        if isinstance(v, SV) and v.ty == self:
+            return v.term
+        raise Unsupported(f"cannot embed {v!r} as a dtype")
+
+
+TDtype = _TDtypeOpaque()
 LSF = TRec("LinearSolverLibraryFactory", {})  # the linear solver factory: only `execute` is used (assumed exact solver)
 
 
@@ -567,6 +654,8 @@ class C07RingModels:
     def call_builtin(self, ex, name, args, kwargs, lineno, node=None):
         if not self._on(ex):
             return NotImplemented
+        if name == "numpy.dtype" and len(args) == 1 and isinstance(args[0], BuiltinV):
+            return SV(z3.Const(f"np_dtype_{args[0].name.replace('.', '_')}", NPDTYPE), TDtype)
         if name == "numpy.empty" and len(args) == 1 and isinstance(args[0], tuple) and len(args[0]) == 2 and all(ex.num(x) is not None for x in args[0]):
             from .engine import PyRaise
 
@@ -586,6 +675,8 @@ class C07RingModels:
         return NotImplemented
 
     def getitem(self, ex, cont, key, lineno):
+        if self._on(ex) and isinstance(cont, tuple) and key == ("slice", None, None, -1):
+            return cont[::-1]  # shape[::-1]
         A = _ring(ex, cont)
         if A is None:
             return NotImplemented
@@ -651,6 +742,14 @@ class C07RingModels:
     def value_attr(self, ex, obj, attr, lineno):
         if isinstance(obj, SV) and obj.ty == LSF:
             return BoundMethod(obj, None, f"lsf.{attr}")
+        if isinstance(obj, SV) and obj.ty == TOp:
+            if attr == "shape":
+                return (SV(nrows(obj.term), TInt), SV(ncols(obj.term), TInt))
+            if attr == "dtype":
+                return SV(op_dtype(obj.term), TDtype)
+            if attr in ("matvec", "rmatvec"):
+                return BoundMethod(obj, None, f"linop.{attr}")
+            raise Unsupported(f"attribute {attr} of an abstract linear operator")
         A = _ring(ex, obj)
         if A is None:
             return NotImplemented
@@ -658,6 +757,10 @@ class C07RingModels:
             return (SV(nrows(A.term), TInt), SV(ncols(A.term), TInt))
         if attr == "T":
             return _rnew(ex, mtr(A.term))
+        if attr == "real":
+            return _rnew(ex, mre(A.term))
+        if attr == "dtype":
+            return SV(op_dtype(A.term), TDtype)
         return BoundMethod(obj, None, f"ring.{attr}")
 
     def call_method(self, ex, recv, name, args, kwargs, lineno):
@@ -675,6 +778,11 @@ class C07RingModels:
                            "(invertible lhs, exact solve, for every algorithm and option) and leaves lhs / rhs unchanged")
             P.fields["solution"] = _rnew(ex, msolve(_ring(ex, P.fields["lhs"]).term, _ring(ex, P.fields["rhs"]).term))
             return None
+        if name in ("linop.matvec", "linop.rmatvec") and isinstance(recv, SV) and recv.ty == TOp and len(args) == 1 and _ring(ex, args[0]) is not None:
+            ex.assumed.add("assumed scipy contract: for a LinearOperator denoting the matrix A, matvec(x) returns A x and rmatvec(x) returns A^H x "
+                           "(conjugate transpose), without modifying x; dimension-mismatch errors are not modelled")
+            a = recv.term if name == "linop.matvec" else madj(recv.term)
+            return _rnew(ex, mmul(a, _ring(ex, args[0]).term))
         if not name.startswith("ring."):
             return NotImplemented
         A = _ring(ex, recv)
@@ -695,6 +803,24 @@ class C07RingModels:
         ex.writeback(o)
         return True
 
+    def isinstance_(self, ex, v, cls):
+        if not (_ring(ex, v) is not None or (isinstance(v, SV) and v.ty == TOp)):
+            return NotImplemented
+        classes = cls if isinstance(cls, tuple) else (cls,)
+        shorts = [(c.name if isinstance(c, BuiltinV) else getattr(c, "qualname", "?")).rsplit(".", 1)[-1] for c in classes]
+        if _ring(ex, v) is not None:  # an array (dense or sparse) of the abstract ring
+            return any(n in ("ndarray",) + SPARSE_NAMES for n in shorts)
+        return any(n in ("LinearOperator", "JacobianOperator") for n in shorts)
+
+    def super_method(self, ex, recv, o, name, args, kwargs, lineno):
+        from . import source as S
+
+        if name == "__init__" and len(args) == 2 and not kwargs and S.is_subclass(o.cls, JACOBIAN_OPERATOR):
+            ex.assumed.add("assumed scipy contract: LinearOperator.__init__(dtype, shape) stores dtype and shape (shape validation not modelled)")
+            o.fields["dtype"], o.fields["shape"] = args[0], args[1]
+            return None
+        return NotImplemented
+
     def unary(self, ex, op, v, lineno):
         A = _ring(ex, v)
         if A is None:
@@ -703,7 +829,25 @@ class C07RingModels:
             return _rnew(ex, mneg(A.term))
         raise Unsupported(f"unary {op} on an abstract matrix")
 
+    def _operator_obj(self, ex, v):
+        from . import source as S
+        from .values import PyObj
+
+        if isinstance(v, Ref):
+            o = ex.st.heap.get(v.id)
+            if isinstance(o, PyObj) and S.is_subclass(o.cls, JACOBIAN_OPERATOR):
+                return o
+        return None
+
     def binop(self, ex, op, a, b, lineno, inplace=False):
+        o = self._operator_obj(ex, a)
+        if o is not None and op in ("Add", "Sub", "MatMult"):
+            # Python's binary-operator protocol: type(a).__op__(a, b) (defined in the repository for the Jacobian operators)
+            from . import source as S
+
+            m = S.find_method(o.cls, {"Add": "__add__", "Sub": "__sub__", "MatMult": "__matmul__"}[op])
+            if m is not None:
+                return ex.call_repo(m, [a, b], {}, lineno)
         A, B = _ring(ex, a), _ring(ex, b)
         if A is None or B is None:
             return NotImplemented
